@@ -197,6 +197,11 @@ TOP_CASES = [
     ("md_no_type", "Select(MetaData(ds0, {'name': 'x'}), lambda e: 1)", None),
     ("md_unknown_type", "Select(MetaData(ds0, {'metadata_type': 'no_such_kind'}), lambda e: 1)", None),
     ("md_extra_key", "Select(MetaData(ds0, {'metadata_type': 'add_atlas_event_collection_info', 'name': 'X', 'include_files': [], 'container_type': 'C', 'element_type': 'E', 'contains_collection': True, 'bogus': 1}), lambda e: 1)", "atlas"),
+    # a key that only ANOTHER backend's collection declaration knows is an unknown key here
+    ("md_foreign_key:atlas_element_pointer", "Select(MetaData(ds0, {'metadata_type': 'add_atlas_event_collection_info', 'name': 'X', 'include_files': [], 'container_type': 'C', 'element_type': 'E', 'contains_collection': True, 'element_pointer': False}), lambda e: 1)", "atlas"),
+    ("md_foreign_key:cms_aod_link_libraries", "Select(MetaData(ds0, {'metadata_type': 'add_cms_aod_event_collection_info', 'name': 'X', 'include_files': [], 'container_type': 'C', 'element_type': 'E', 'contains_collection': True, 'element_pointer': False, 'link_libraries': ['L']}), lambda e: 1)", "cms_aod"),
+    ("md_foreign_key:cms_miniaod_link_libraries", "Select(MetaData(ds0, {'metadata_type': 'add_cms_miniaod_event_collection_info', 'name': 'X', 'include_files': [], 'container_type': 'C', 'element_type': 'E', 'contains_collection': True, 'element_pointer': False, 'link_libraries': ['L']}), lambda e: 1)", "cms_miniaod"),
+    ("md_extra_key:cms_aod", "Select(MetaData(ds0, {'metadata_type': 'add_cms_aod_event_collection_info', 'name': 'X', 'include_files': [], 'container_type': 'C', 'element_type': 'E', 'contains_collection': True, 'bogus': 1}), lambda e: 1)", "cms_aod"),
     ("md_elem_mismatch", "Select(MetaData(ds0, {'metadata_type': 'add_atlas_event_collection_info', 'name': 'X', 'include_files': [], 'container_type': 'C', 'contains_collection': True}), lambda e: 1)", "atlas"),
     ("md_inject_unknown_field", "Select(MetaData(ds0, {'metadata_type': 'inject_code', 'name': 'b', 'no_such_field': ['x']}), lambda e: 1)", None),
     ("md_jobscript_missing_dep", "Select(MetaData(ds0, {'metadata_type': 'add_job_script', 'name': 'a', 'script': ['x'], 'depends_on': ['nope']}), lambda e: 1)", "atlas"),
